@@ -258,6 +258,13 @@ def run(run, ix, tier):
         run.rules[rule]['failed'] += 1
 
     check_unwrapped_returns(run, ix)
+    check_pass_through(run, ix)
+    # the engine treats exact_nthroot(s, n, prec, approx) as bounded by prec (round_flow.GUARD_BOUNDED): the
+    # guard that makes this true is verified here as well
+    from ..report import SubRun
+    from . import c13
+    run.rule('E-X1', floor=5, desc='exact_nthroot returns only verified roots of at most prec bits')
+    c13.check_exact_root_exits(SubRun(run, keep=('E-X1',)), ix)
     # private context helpers whose stored value is NOT bounded by the working precision must not be
     # handed out by a public function as they are
     run.stats['unbounded_private_helpers'] = sorted(private_bad)
@@ -546,3 +553,69 @@ def c11_wrapped(ix, g):
     from ..resolve import get_resolver
     res = get_resolver(ix)
     return any(e.func is g and e.wrap for e in res.entries(g.name))
+
+
+# --------------------------------------------------------------------------- B-R8
+PASS_THROUGH_OK = {
+    ('re', 'x'): 'component access of a real number (documented exact)',
+    ('conj', 'x'): 'fallback for an object without conjugate(): not an mp number (mpf and mpc have the method)',
+}
+
+
+def check_pass_through(run, ix):
+    """B-R8.  A public function of the elementary layer (functions/functions.py, plain @defun: nothing rounds
+    after it) must not hand its converted argument back as it is: the argument may carry more bits than the
+    working precision (sign(mpc(nan, y)), conj(x) of a real x).  Every `return <name>` where the name is a
+    parameter or `ctx.convert(<parameter>)` is a finding unless it is a documented exact operation; `+x`
+    rounds.  The same for methods written as class-body lambdas of _mpf that return self outside a property
+    (component access)."""
+    run.rule('B-R8', floor=18, desc='public unwrapped functions do not return their argument unrounded')
+    rel = 'mpmath/functions/functions.py'
+    m = ix.module(rel)
+    for f in m.funcs.values():
+        if f.parent is not None or not isinstance(f.node, ast.FunctionDef):
+            continue
+        decs = [norm(d) for d in f.node.decorator_list]
+        if 'defun' not in decs:
+            continue
+        params = f.params[1:]
+        conv = {}
+        for st in _walk_own(f.node):
+            if isinstance(st, ast.Assign) and len(st.targets) == 1 and isinstance(st.targets[0], ast.Name) \
+                    and isinstance(st.value, ast.Call) and norm(st.value.func) in ('ctx.convert', 'ctx.mpmathify') \
+                    and st.value.args and isinstance(st.value.args[0], ast.Name):
+                conv[st.targets[0].id] = st.value.args[0].id
+        bad = False
+        for r in _walk_own(f.node):
+            if isinstance(r, ast.Return) and isinstance(r.value, ast.Name) and \
+                    (r.value.id in params or r.value.id in conv):
+                why = PASS_THROUGH_OK.get((f.name, r.value.id))
+                if f.name == 'conj':
+                    # only the fallback of the `except AttributeError` handler is exempt
+                    p_ = getattr(r, '_parent', None)
+                    if not (isinstance(p_, ast.ExceptHandler) and norm(p_.type) == 'AttributeError'):
+                        why = None
+                if why:
+                    run.ok('B-R8', '%s: `%s` -- %s' % (f.name, norm(r), why))
+                else:
+                    bad = True
+                    run.fail(Finding('B-R8', rel, f.name, norm(r), 'the converted argument is returned as it is: an '
+                                     'operand with more bits than the working precision comes back unrounded '
+                                     '(`+%s` rounds)' % r.value.id, line=r.lineno))
+        if not bad:
+            run.ok('B-R8', '%s: no argument is handed back unrounded' % f.name)
+    # class-body lambdas of _mpf / _mpc
+    for cname in ('_mpf', '_mpc'):
+        c = ix.module(CTXPY).classes.get(cname)
+        if c is None:
+            raise AnalysisError('class %s vanished' % cname)
+        for st in c.node.body:
+            if isinstance(st, ast.Assign) and isinstance(st.value, ast.Lambda) and len(st.targets) == 1:
+                lam = st.value
+                arg0 = lam.args.args[0].arg if lam.args.args else None
+                if isinstance(lam.body, ast.Name) and lam.body.id == arg0:
+                    run.fail(Finding('B-R8', CTXPY, cname, norm(st), 'the method returns the object itself: '
+                                     'x.%s() of an operand longer than the working precision is not rounded, while '
+                                     'the sibling class rounds' % norm(st.targets[0]), line=st.lineno))
+                else:
+                    run.ok('B-R8', '%s.%s = %s' % (cname, norm(st.targets[0]), norm(lam, 50)))
